@@ -58,3 +58,14 @@ Proof.
   split; [reflexivity|]. split; [|reflexivity].
   repeat constructor; reflexivity.
 Qed.
+
+(* the header of a class statement at module level: the bases are evaluated first, then the keywords in the order written -
+   a `metaclass=` keyword at its place among them (it used to be evaluated before the bases: fix e4f4404) - once each.
+   (Class DECORATOR expressions are evaluated after the body: known finding K-class-decorator-late.) *)
+Theorem C07_class_header_order : forall cfg g loops ru p name ln bases kws body decs es,
+  n_kind g = NGlobal -> Forall (stable g) bases -> Forall (fun kw => stable g (snd kw)) kws ->
+  lower_stmt cfg (mkCtx g loops ru) p (SClassDef name ln bases kws body decs) = inl es ->
+  exists create rest, es = create :: rest /\
+    events create = oapp (events_seq bases) (events_seq (map snd kws)).
+Proof. exact class_header_order. Qed.
+Print Assumptions C07_class_header_order.
